@@ -11,7 +11,7 @@
      S  sequences of didman operations and resolutions starting from empty managed documents. *)
 EXTENDS ServiceRef, Json
 
-CONSTANTS Fam, MaxLen, Depths
+CONSTANTS Fam, MaxLen, Depths, FormLen     \* FormLen: the first reference is varied in spelling on paths up to this length
 
 ActiveDIDs == {"A", "B", "C"}
 Slots == ActiveDIDs \X {"t1", "t2"}
@@ -40,7 +40,7 @@ TermE(tm) ==
       [] tm = "nosvc" -> Ref("A", "t9", "canon")
       [] tm = "docnone" -> Ref("N", "t1", "canon")
       [] tm = "docdeact" -> Ref("D", "t1", "canon")
-      [] OTHER -> Ref("A", "t1", tm)
+      [] OTHER -> Ref("E", "t1", tm)     \* malformed reference to a service that exists and would resolve
 
 \* endpoint of slot (d, t) in the graph of path p closed by `last`, first reference written in form f1
 SlotE(p, last, f1, d, t) ==
@@ -55,7 +55,7 @@ Graph(p, last, f1) ==
         ELSE IF d = "D" THEN Doc("deact", EmptySvc)
         ELSE NoDoc]
 Lasts(p) == {TermE(tm) : tm \in Terminals} \cup {Ref(p.s[i][1], p.s[i][2], "canon") : i \in 1..p.n}
-HopForms(p) == IF p.n = 1 THEN {"canon"} ELSE {"canon", "pct", "frag"}
+HopForms(p) == IF p.n = 1 \/ p.n > FormLen THEN {"canon"} ELSE {"canon", "pct", "frag"}
 PathGraphs == UNION {{Graph(p, last, f1) : last \in Lasts(p), f1 \in HopForms(p)} : p \in Paths}
 \* family V: forms only matter for the in-use check
 LastsV(p) == {TermE(tm) : tm \in {"url", "map", "mapx", "nosvc", "docdeact", "extraq"}} \cup {Ref(p.s[i][1], p.s[i][2], "canon") : i \in 1..p.n}
@@ -103,14 +103,16 @@ VEnds == {Url("u1")} \cup {Ref(sl[1], sl[2], "canon") : sl \in Slots}
                Map([m1 |-> Ref("A", "tn", "canon")]), Map([m1 |-> Ref("C", "tn", "canon"), m2 |-> Ref("E", "t1", "canon")])}
 MCAddChoices ==
     CASE Fam = "V" -> {[d |-> d, t |-> "tn", e |-> e] : d \in {"A", "C"}, e \in VEnds}
+                      \cup {[d |-> d, t |-> "tn", e |-> e] : d \in {"D", "N"}, e \in {Url("u1"), Map([m1 |-> Url("u1")])}}
       [] Fam = "S" -> {[d |-> d, t |-> t, e |-> e] : d \in {"A", "B"}, t \in {"t1", "t2"}, e \in SEnds}
       [] OTHER -> {}
 MCDeleteChoices ==
-    CASE Fam = "V" -> {[d |-> sl[1], t |-> sl[2]] : sl \in Slots}
+    CASE Fam = "V" -> {[d |-> sl[1], t |-> sl[2]] : sl \in Slots} \cup {[d |-> d, t |-> "t1"] : d \in {"D", "N"}}
       [] Fam = "S" -> {[d |-> d, t |-> t] : d \in {"A", "B"}, t \in {"t1", "t2"}}
       [] OTHER -> {}
 MCCompoundQueries ==
     CASE Fam = "V" -> {[d |-> "A", ct |-> "t1", n |-> n, rr |-> b] : n \in {"m1", "m2", "m3", "mx"}, b \in BOOLEAN}
+                      \cup {[d |-> d, ct |-> "t1", n |-> "m1", rr |-> TRUE] : d \in {"D", "N"}}
       [] Fam = "S" -> {[d |-> d, ct |-> "t1", n |-> "m1", rr |-> b] : d \in {"A", "B"}, b \in BOOLEAN}
       [] OTHER -> {}
 
